@@ -244,6 +244,8 @@ pub struct WasmGenerator {
     alloc_ptr_global: u32,
     /// Local variable index for saving alloc pointer at entry-function start (i32)
     alloc_ptr_save_local: u32,
+    /// Temporary i32 local holding the end address of the allocation being emitted.
+    alloc_end_local: u32,
     /// Whether the current function being generated is an entry point (dsp or _mimium_global).
     /// Entry functions save/restore the alloc pointer to prevent unbounded memory growth.
     is_entry_function: bool,
@@ -416,6 +418,7 @@ impl WasmGenerator {
             alloc_base_local: 0,
             alloc_ptr_global: 0,
             alloc_ptr_save_local: 0,
+            alloc_end_local: 0,
             is_entry_function: false,
             use_runtime_alloc_for_current_function: false,
             call_type_cache: HashMap::new(),
@@ -1143,6 +1146,10 @@ impl WasmGenerator {
             // Extra i32 local for saving alloc pointer at entry function start
             locals.push((1, ValType::I32));
             self.alloc_ptr_save_local = self.alloc_base_local + 1;
+            // Extra i32 local for the end address computed by runtime allocations. It must not
+            // share the slot above: that one holds the entry function's saved pointer until return.
+            locals.push((1, ValType::I32));
+            self.alloc_end_local = self.alloc_ptr_save_local + 1;
 
             // Create a new WASM function
             let mut wasm_func = Function::new(locals);
@@ -4015,15 +4022,14 @@ impl WasmGenerator {
         func.instruction(&W::GlobalGet(self.alloc_ptr_global));
         func.instruction(&W::LocalSet(self.alloc_base_local));
 
-        // Compute allocation end pointer and store it in alloc_ptr_save_local
-        // (used here as a temporary i32 local).
+        // Compute allocation end pointer and keep it in its own temporary local.
         func.instruction(&W::LocalGet(self.alloc_base_local));
         func.instruction(&W::I32Const(size_bytes as i32));
         func.instruction(&W::I32Add);
-        func.instruction(&W::LocalSet(self.alloc_ptr_save_local));
+        func.instruction(&W::LocalSet(self.alloc_end_local));
 
         // If end > current memory size (bytes), grow memory.
-        func.instruction(&W::LocalGet(self.alloc_ptr_save_local));
+        func.instruction(&W::LocalGet(self.alloc_end_local));
         func.instruction(&W::MemorySize(0));
         func.instruction(&W::I32Const(WASM_PAGE_SHIFT));
         func.instruction(&W::I32Shl);
@@ -4031,7 +4037,7 @@ impl WasmGenerator {
         func.instruction(&W::If(wasm_encoder::BlockType::Empty));
 
         // pages_needed = ((end - mem_bytes) + (page_size-1)) >> 16
-        func.instruction(&W::LocalGet(self.alloc_ptr_save_local));
+        func.instruction(&W::LocalGet(self.alloc_end_local));
         func.instruction(&W::MemorySize(0));
         func.instruction(&W::I32Const(WASM_PAGE_SHIFT));
         func.instruction(&W::I32Shl);
@@ -4051,7 +4057,7 @@ impl WasmGenerator {
         func.instruction(&W::End);
 
         // Commit allocator pointer.
-        func.instruction(&W::LocalGet(self.alloc_ptr_save_local));
+        func.instruction(&W::LocalGet(self.alloc_end_local));
         func.instruction(&W::GlobalSet(self.alloc_ptr_global));
     }
 
